@@ -1851,6 +1851,17 @@ def suite_failures(exe, tier, seed):
                             ("function", FAIL_CLEAN[len("pragma circom 2.0.0;\n"):] + "function bad(a, a) { return a; }\n")):
             f = write("params.circom", "pragma circom 2.0.0;\n" + src + FAIL_MAIN)
             expect_failure("parameter-collision", case, [f], "a definition with a repeated parameter name")
+        # ---- a definition that cannot be lifted and that other templates instantiate: whichever is analysed first (hash order)
+        users = "".join(f"template User{k}() {{ signal input x; signal output y; component s = Scale({k}, {k}); s.i <== x; y <== s.o; }}\n" for k in range(1, 5))
+        f = write("inst.circom", "pragma circom 2.0.0;\ntemplate Scale(k, k) { signal input i; signal output o; o <== i * k; }\n" + users + "component main = User1();\n")
+        for rep in range(3 if tier == "quick" else 12):
+            expect_failure("parameter-collision", f"instantiated-by-four-templates-run-{rep}", [f], "a template with a repeated parameter name that four clean templates instantiate")
+        # ---- a failing named file that another named file includes (either order on the command line)
+        for (case, libsrc) in (("syntax-error", FAIL_CLEAN.replace("  c <== a * b;", "  c <== a * b")), ("parameter-collision", FAIL_CLEAN + "template Dup(n, n) { signal input i; signal output o; o <== i + n; }\n")):
+            write("inclib.circom", libsrc)
+            write("incmain.circom", 'pragma circom 2.0.0;\ninclude "inclib.circom";\ntemplate Uses() { signal input x; signal output y; component s = Sub(); s.a <== x; s.b <== x; y <== s.c; }\ncomponent main = Uses();\n')
+            expect_failure("named-and-included", case + "-included-first", ["inclib.circom", "incmain.circom"], f"{case} in a named file that the other named file includes")
+            expect_failure("named-and-included", case + "-includer-first", ["incmain.circom", "inclib.circom"], f"{case} in a named file that the other named file includes")
         # ---- G: several main components
         m2 = write("main2.circom", "pragma circom 2.0.0;\ntemplate Other() { signal input i; signal output o; o <== i; }\ncomponent main = Other();\n")
         expect_failure("multiple-main", "two-files", [clean, m2], "two files with a main component each")
@@ -1858,8 +1869,8 @@ def suite_failures(exe, tier, seed):
     finally:
         shutil.rmtree(d, ignore_errors=True)
     return {"unit": "e2e-failures", "evaluations": evals, "distinct_nontrivial": nontrivial, "exhaustive": False,
-            "rule": "the real CLI on a clean two-template project into which one failure is injected: a named file that does not exist (alone, first, last, between), an unsupported `pragma circom` version (4 versions, first and second file), an illegal character or a stray brace before a token of the file (every token thorough, every fifth quick) and an unterminated comment, a malformed tuple or anonymous component (4 forms), a repeated parameter name (template first / last, function), two main components (both file orders); each under --level warning and --level error: the exit status is non-zero, `No issues found.` is not printed, and an error-level report is displayed; the clean project itself exits 0",
-            "bound": "7 failure classes; syntax errors at " + ("every" if tier == "thorough" else "every fifth") + " token of a 17-line file; 2 levels each",
+            "rule": "the real CLI on a clean two-template project into which one failure is injected: a named file that does not exist (alone, first, last, between), an unsupported `pragma circom` version (4 versions, first and second file), an illegal character or a stray brace before a token of the file (every token thorough, every fifth quick) and an unterminated comment, a malformed tuple or anonymous component (4 forms), a repeated parameter name (template first / last, function, a template that four others instantiate — repeated runs), two main components (both file orders), a syntax error or parameter collision in a named file that another named file includes (both orders); each under --level warning and --level error: the exit status is non-zero, `No issues found.` is not printed, and an error-level report is displayed; the clean project itself exits 0",
+            "bound": "8 failure classes; syntax errors at " + ("every" if tier == "thorough" else "every fifth") + " token of a 17-line file; 2 levels each",
             "samples": samples, "violations": viol}
 
 
@@ -1876,11 +1887,15 @@ class DvProg:
 
 def dv_expr_text(e):
     if isinstance(e, tuple):
+        if e[0] == "?:":
+            return f"({dv_expr_text(e[1])} ? {dv_expr_text(e[2])} : {dv_expr_text(e[3])})"
         return f"({dv_expr_text(e[1])} {e[0]} {dv_expr_text(e[2])})"
     return str(e)
 
 def dv_eval(e, env):
     if isinstance(e, tuple):
+        if e[0] == "?:":
+            return dv_eval(e[2], env) if dv_eval(e[1], env) else dv_eval(e[3], env)
         a, b = dv_eval(e[1], env), dv_eval(e[2], env)
         if e[0] == "+": return (a + b) % DV_P
         if e[0] == "*": return (a * b) % DV_P
@@ -1940,12 +1955,14 @@ def dv_generate(rng, size):
         return rng.choice(avail + [rng.randrange(0, 4)])
     def expr(avail):
         r = rng.random()
-        if r < 0.4: return operand(avail)
-        if r < 0.8: return ("+", operand(avail), operand(avail))
-        return ("*", operand(avail), rng.randrange(0, 3))
+        if r < 0.35: return operand(avail)
+        if r < 0.7: return ("+", operand(avail), operand(avail))
+        if r < 0.85: return ("*", operand(avail), rng.randrange(0, 3))
+        loc = [a for a in avail if a.startswith("v")] or avail
+        return ("?:", (rng.choice(["<", "=="]), rng.choice(loc), rng.randrange(0, 4)), operand(avail), operand(avail))
     avail = ["p", "q"]
     for n in names:
-        e = expr(avail)
+        e = rng.randrange(0, 4) if rng.random() < 0.35 else expr(avail)
         ln = emit(f"var {n} = {dv_expr_text(e)};", 0)
         body.append(("set", ln, n, e, "decl"))
         avail.append(n)
@@ -1953,6 +1970,11 @@ def dv_generate(rng, size):
     def block(budget, depth, out):
         while budget > 0:
             budget -= 1
+            if depth >= 1 and budget == 0 and rng.random() < 0.2:
+                e = expr(avail)
+                ln = emit(f"return {dv_expr_text(e)};", depth)
+                out.append(("ret", ln, e))
+                return
             r = rng.random()
             if r < 0.55 or depth >= 2:
                 v = rng.choice(names); e = expr(avail); op = rng.choice(["=", "=", "+="])
@@ -2001,7 +2023,7 @@ def suite_deadvalues(exe, tier, seed):
     import random
     viol, samples = [], []
     evals = nontrivial = claims = 0
-    n_prog = 40 if tier == "quick" else 1500
+    n_prog = 250 if tier == "quick" else 2500
     d = tempfile.mkdtemp(prefix="vx-e2e-")
     grid = [(a, b) for a in (0, 1, 2, 5) for b in (0, 1, 3, 7)]
     def add(ob, inp, what):
@@ -2054,7 +2076,7 @@ def suite_deadvalues(exe, tier, seed):
     finally:
         shutil.rmtree(d, ignore_errors=True)
     return {"unit": "e2e-deadvalues", "evaluations": evals, "distinct_nontrivial": nontrivial, "exhaustive": False,
-            "rule": "the real CLI on generated functions (four locals declared with initial values, then assignments, compound assignments, if / else, counted for loops up to depth 2, a final return; operands are parameters, locals, loop counters and small constants; + and multiplication by a small constant): for every CS0006 (`value never read`) and CS0008 (`does not influence the return value`) finding anchored at an assignment, an interpreter of the generated program runs the function on 16 inputs twice — as written, and with the value assigned at that statement replaced by the value plus one — and the return values (for CS0006 also every branch and loop decision) must agree; for CS0007 (`parameter never read`) the parameter itself is varied",
+            "rule": "the real CLI on generated functions (four locals declared with initial values, then assignments, compound assignments, if / else, counted for loops up to depth 2, early returns inside branches and loops, a final return; operands are parameters, locals, loop counters and small constants; +, multiplication by a small constant and the ternary `c ? a : b`): for every CS0006 (`value never read`) and CS0008 (`does not influence the return value`) finding anchored at an assignment, an interpreter of the generated program runs the function on 16 inputs twice — as written, and with the value assigned at that statement replaced by the value plus one — and the return values (for CS0006 also every branch and loop decision) must agree; for CS0007 (`parameter never read`) the parameter itself is varied",
             "bound": f"{n_prog} generated functions of 3..8 body statements (seeded); 16 inputs each; {claims} claims examined",
             "samples": samples, "violations": viol}
 
